@@ -41,7 +41,7 @@ def run(tier):
     rep.coverage["deviation_counterexamples"] = dev
     # 2. impl -> spec: verdicts of the real validate_membership judged by Trace_CloseGroup.tla
     trace = os.path.join(wd, "trace.ndjson")
-    cases, configs = (1500, 60) if big else (400, 26)
+    cases, configs = (1500, 60) if big else (320, 26)
     vlib.run_harness(["c15", "drive", "out=" + trace, "cases=%d" % cases, "configs=%d" % configs])
     recs = vlib.read_ndjson(trace)
     res, states = a_common.validate_sharded("Trace_CloseGroup", "Trace_CloseGroup.cfg", recs, wd, shards=6 if big else 4,
